@@ -416,10 +416,29 @@ def _fallback_ok(fk):
 
 
 # ------------------------------------------------------------------------------------------ R3 LOOP
-FINITE_ITER = re.compile(
-    r"std::ops::Range<|std::ops::RangeInclusive<|std::vec::IntoIter<|std::slice::Iter<|utils::path::Ancestors|utils::path::RawComponents|"
-    r"std::iter::Peekable<std::iter::Filter<rustix::fs::Dir|std::collections::vec_deque::|std::iter::Rev<|std::option::IntoIter<|std::array::IntoIter<|"
-    r"std::iter::Map<|std::iter::Filter<|std::iter::Chain<|std::iter::Once<|std::str::|std::iter::Copied<|std::iter::TakeWhile<|std::iter::FlatMap<")
+# Iterators over in-memory data are finite.  Listed: the crate's own splitters, the directory scan (audited:
+# C13) and every std/core/alloc iterator except the unbounded generators and the I/O-driven ones.
+UNBOUNDED_ITER = re.compile(r"std::iter::(Repeat|RepeatWith|FromFn|Successors|Cycle)\b|std::ops::RangeFrom<|std::io::|std::fs::ReadDir|std::sync::mpsc|std::net::|std::process::")
+FINITE_HEAD = re.compile(r"^(&mut |&)?(std|core|alloc)::|^(&mut |&)?(utils::path::(Ancestors|RawComponents)|rustix::fs::Dir)\b")
+
+
+class _FiniteIter:
+    """FINITE_ITER.search(ty): is this iterator type known to terminate?"""
+
+    @staticmethod
+    def search(ty):
+        ty = ty or ""
+        if UNBOUNDED_ITER.search(ty):
+            return None
+        if FINITE_HEAD.search(ty):
+            return True
+        # adaptor shells over the crate's finite sources
+        if "utils::path::RawComponents" in ty or "utils::path::Ancestors" in ty or "rustix::fs::Dir" in ty:
+            return True
+        return None
+
+
+FINITE_ITER = _FiniteIter()
 
 LOOP_TABLE = {
     ("utils::dir::remove_all", "rescan"): "outer rescan loop: leaves when a fresh directory scan is empty; every failing call inside leaves through `?`",
